@@ -985,6 +985,69 @@ def gen_resolve_conflict(rng, tier):
         yield {"target": target, "base": base, "child": target.index(child)}
 
 
+def oracle_inners(a):
+    """after the real VacuumInnerClasses.process the inner classes of one class have pairwise different
+    class names (under the default naming convention)"""
+    from xsdata.codegen.handlers import VacuumInnerClasses
+
+    names = list(dict.fromkeys(a["names"]))  # one inner class per qname
+    ns = a.get("ns")
+    q = lambda n: ("{%s}%s" % (ns, n)) if ns else n  # noqa: E731
+    target = Class(qname=q("outer"), tag=Tag.COMPLEX_TYPE, location="l")
+    inners = []
+    for n in names:
+        c = Class(qname=q(n), tag=Tag.COMPLEX_TYPE, location="l")
+        c.attrs = [Attr(tag=Tag.ELEMENT, name="x")]  # a class without attrs is vacuumed
+        c.parent = target
+        inners.append(c)
+    target.inner = list(inners)
+    try:
+        VacuumInnerClasses().process(target)
+    except Exception as e:  # noqa: BLE001
+        return f"VacuumInnerClasses raised {type(e).__name__}"
+    finals = [F().class_name(i.name) for i in target.inner]
+    for i, n in enumerate(finals):
+        if n in finals[:i]:
+            j = finals.index(n)
+            return f"inner classes {names[j]!r} and {names[i]!r} of one class are both rendered as class {n!r}"
+    return None
+
+
+def covered_inners(a, msg):
+    m = re.search(r"inner classes ('(?:[^'\\]|\\.)*') and ('(?:[^'\\]|\\.)*') of one class are both rendered as class ('(?:[^'\\]|\\.)*')", msg)
+    if not m:
+        return None
+    n1, n2, final = (ast.literal_eval(x) for x in m.groups())
+    # different slugs that the documented safe_name maps to one name: the open finding
+    if own_slug(n1) != own_slug(n2) and ref_safe_name(n1, "type", "pascalCase") == ref_safe_name(n2, "type", "pascalCase") == final:
+        return "C07-safe-prefix-collision"
+    return None
+
+
+def oracle_conflict(a):
+    """after the real ValidateAttributesOverrides.validate_attrs no two attrs of the class and its
+    parents share a field name (inputs: one clash between a child attr and a parent attr of the other kind)"""
+    io = impl_resolve_conflict(a)
+    if "err" in io:
+        return f"validate_attrs raised {io['err']}"
+    names = io["ok"][0] + io["ok"][1]
+    finals = [F().field_name(n, "c") for n in names]
+    for i, n in enumerate(finals):
+        if n in finals[:i]:
+            return f"attrs {names[finals.index(n)]!r} and {names[i]!r} (class and parents of {[x['name'] for x in a['target']]!r} / {[x['name'] for x in a['base']]!r}) both become field {n!r}"
+    return None
+
+
+def covered_conflict(a, msg):
+    m = re.search(r"attrs ('(?:[^'\\]|\\.)*') and ('(?:[^'\\]|\\.)*') \(class", msg)
+    if not m:
+        return None
+    n1, n2 = (ast.literal_eval(x) for x in m.groups())
+    if own_slug(n1) != own_slug(n2) and ref_safe_name(n1, "value", "snakeCase") == ref_safe_name(n2, "value", "snakeCase"):
+        return "C07-safe-prefix-collision"
+    return None
+
+
 
 def classify_safe(a, out):
     if "err" in out:
@@ -1830,6 +1893,16 @@ def gen_pipeline(rng, tier):
         return {"name": name, "elements": list(elements), "attributes": list(attributes), "abstract": abstract}
 
     yield xsd([ty("t", ["a", "a_Attribute"], ["a"])])
+    # inner classes whose names collide after conversion (x-1 / x1, a⁰ / a名)
+    yield xsd([ty("t", [["x-1", None, ["p"]], ["x1", None, ["q"]], ["a⁰", None, ["p"]], ["a名", None, ["q"]]])], [{"name": "r", "type": "t"}])
+    # a child element clashing with a parent attribute while the parent already has `a_Attribute`
+    yield xsd([ty("p", ["a_Attribute"], ["A"]), {**ty("c", ["a"]), "base": "p"}], [{"name": "r", "type": "c"}])
+    # an ambiguous choice whose type is an anonymous (inner) class: element `str` next to an xs:string element
+    for st in ("filenames", "clusters"):
+        yield xsd([{**ty("t", [["str", None, ["x"]], "s"]), "model": "choice"}], [{"name": "r", "type": "t"}], compound=True, style=st)
+    # the class created for an ambiguous choice, unqualified local elements, a namespace style
+    yield xsd([{**ty("t", [["a", "u"], ["b", "u"]]), "model": "choice"}, ty("u", ["x"])], [{"name": "r", "type": "t"}],
+              tns="urn:x", compound=True, unnest=True, style="namespaces")
     yield xsd([ty("t", ["class", "class_value", "await"])])
     yield xsd([ty("t", ["a", "A", "a_"], ["a"])])
     yield xsd([ty("None"), ty("NoneType")], [{"name": "r", "type": "None"}])
@@ -2044,6 +2117,8 @@ ORACLES = [
     Oracle("c07.fields", gen_oracle_fields, oracle_fields, covered_fields, from_ops=("names.rename_attrs", "names.e2e_fields")),
     Oracle("c07.classes", gen_oracle_classes, oracle_classes, covered_classes, from_ops=("names.rename_classes",)),
     Oracle("c07.fresh", gen_oracle_fresh, oracle_fresh, from_ops=("names.unique_name", "names.next_qname", "names.next_available_name"), adapt=adapt_fresh),
+    Oracle("c07.inners", gen_rename_inners, oracle_inners, covered_inners, from_ops=("names.rename_inners",)),
+    Oracle("c07.conflict", gen_resolve_conflict, oracle_conflict, covered_conflict, from_ops=("names.resolve_conflict",)),
     Oracle("c07.circular", gen_detect_circular, oracle_circular, from_ops=("names.detect_circular",)),
     Oracle("c07.pipeline", gen_pipeline, oracle_pipeline, covered_pipeline, from_ops=("c07.e2e", "names.e2e_fields"),
            adapt=lambda op, a: a if op == "c07.e2e" else adapt_pipeline(op, a)),
